@@ -183,7 +183,7 @@ EXTREME = ["1E999", "1E-999", "9" * 40, "&HFFFFFF", ".", "1E", "+-1", "65535", "
 def mutated(draw, switches):
     c = draw(full.full_programs(switches, max_lines=5, operand_depth=2))
     src = render.render(c["prog"], paren_unary="paren_unary" in switches)
-    kind = draw(st.sampled_from(["mutate", "mutate", "mutate", "splice", "nest", "none", "raw", "lines", "lines"]))
+    kind = draw(st.sampled_from(["mutate", "mutate", "mutate", "splice", "nest", "none", "raw", "lines", "lines", "longtext"]))
     n_mut = 0
     if kind == "mutate":
         toks = TOKEN_RE.findall(src)
@@ -205,6 +205,14 @@ def mutated(draw, switches):
             else:
                 toks[i] = draw(st.sampled_from(EXTREME))
         src = "".join(toks)
+    elif kind == "longtext":
+        # long string literals and comments with trigger words and stray quotes (pattern matching over the emitted text must stay linear)
+        words = ["PRESS", "ENTER", "TO", "RUN", "THE", "SIMULATION", "AGAIN", "OR", "Q", "QUIT", "PROCEDURE", "STRING", "X1", "RUN ecb_cls", ": STRING<<>>"]
+        text = " ".join(draw(st.lists(st.sampled_from(words), min_size=6, max_size=22)))
+        where = draw(st.sampled_from(["print", "assign", "rem", "rem_quote", "data", "partial"]))
+        stmt = {"print": 'PRINT "%s"' % text, "assign": 'A$="%s"' % text[:200], "rem": "REM " + text, "rem_quote": "REM " + text[:len(text) // 3] + ' " ' + text[len(text) // 3:],
+                "data": 'DATA "%s",%s' % (text, text.replace(",", " ").replace(":", " ")), "partial": 'A$="' + text}[where]
+        src = src + "\n9000 " + stmt
     elif kind == "lines":
         # delete / duplicate / swap whole lines or whole statements (unbalanced FOR/NEXT, orphaned ELSE, repeated handlers ...)
         ls = src.split("\n")
@@ -248,7 +256,7 @@ def mutated(draw, switches):
     for k in ("filter_unused_linenum", "initialize_vars", "add_standard_prefix", "add_suffix", "default_width32", "skip_procedure_headers"):
         if draw(st.integers(0, 3)) == 0:
             opts[k] = draw(st.booleans())
-    if draw(st.integers(0, 2)) == 0:
+    if draw(st.integers(0, 2)) == 0 or kind == "longtext":
         opts["output_dependencies"] = True
         pn = draw(st.one_of(st.sampled_from(["p", "my_prog", "", "a b", "x" * 40]), st.text(alphabet="abXY09_-.", min_size=0, max_size=8)))
         if ("-" in pn or "." in pn) and "procname_word_chars_only" in switches:
